@@ -4,7 +4,7 @@ HOOKS = {
     "guard": "verif",
     "enable": "go build -tags verif (harness module /verif/harness with `replace github.com/goose-lang/goose => /repo`)",
     "baseline_off_cmd": "cd /repo && GOFLAGS=-mod=mod go test -json -vet=off -count=1 -timeout 25m ./...",
-    "source_commits": ["4385eebfba1ac813fc0ffcf43c01c385837a539e"],
+    "source_commits": ["4385eebfba1ac813fc0ffcf43c01c385837a539e", "906a8cb9995f74315a89693d161d738cbaa9999e"],
     "add_only": True,
 }
 
